@@ -227,3 +227,8 @@ func B2I(b bool) int {
 	}
 	return 0
 }
+
+// And / Or / Implies combine conditions without short-circuit branching. (intercepted)
+func And(a, b bool) bool     { return a && b }
+func Or(a, b bool) bool      { return a || b }
+func Implies(a, b bool) bool { return !a || b }
